@@ -56,10 +56,13 @@ claim("C09",
       "DESIGN.md section 4, C09")
 
 claim("C12",
-      "expression algebra (sympy) on the def-chain of the thermostat coefficients + CFG event words for O-step placement",
+      "abstract interpretation of Molecular_Dynamics_Langevin.initialize on a symbolic driver / molecule (sa/npsym.py, [EA+]: identities checked on whatever the routine leaves in "
+      "langevin_c1 / langevin_c2, every input changed alone between repeated calls); expression algebra (sympy) on the def-chain as the shape-based layer; CFG event words + interpreted O-V-O step for placement",
       "Decides the fluctuation-dissipation identity c1^2 + c2^2/(k_B T/m) = 1 identically in dt, damp, T and mass, c1 = exp(-dt/2damp), "
       "the limits damp->inf and T=0, the exact shape of the O-step (fresh unit normal per component, global generator) and its "
-      "placement as first and last event of every thermostatted path under one condition, and the degrees-of-freedom accounting.",
+      "placement as first and last event of every thermostatted path under one condition, and the degrees-of-freedom accounting. The coefficient identities are decided by value: "
+      "initialize() is interpreted with symbolic dt, damp, T and inverse masses, so helper functions, records and temporaries do not matter, and a memo that survives a change of "
+      "masses / time step / damping time / temperature is visible (each is changed alone between calls on the same object).",
       "Does not decide the long-run mean temperature (statistical). Trusted: sympy, torch.randn_like semantics.",
       "DESIGN.md section 4, C12")
 
@@ -91,18 +94,23 @@ claim("C20",
       "loop is capped by range(max_evl) and breaks exactly on max|force| <= tol; that the returned values are the last evaluation's; "
       "that 'not converged' is reachable only through loop exhaustion and 'converged' only through break on all flag-feasible "
       "paths; that the only coordinate write is zero on padding rows and free of batch reductions.",
-      "Does not decide monotone descent. Assumes force = -dE/dx and zero on padding (C01). Report statements are found by their message literals.",
+      "Does not decide monotone descent. Assumes force = -dE/dx and zero on padding (C01). Report statements are found by their message literals (also through module-level string "
+      "constants). The residual is recognised by structure (any chain of max-reductions over |force|; per-molecule maxima under all()/any() in the stop test), the energy change as a linear form.",
       "DESIGN.md section 4, C20")
 
 claim("C03",
       "counter-rule loop-boundedness over per-function CFGs (all `while` loops in seqm/ and scripts/), def-use pass-through of the convergence flag, "
-      "boolean dataflow of the convergence mask, constant folding of thresholds",
+      "boolean dataflow of the convergence mask, constant folding of thresholds, loop-invariant taint from the start density (R8), abstract interpretation of the density builders "
+      "on designed Fock matrices with exact eigendecomposition (sa/densitymodel.py, R9, [EA+])",
       "Decides termination structurally for every `while` loop in the package (counter stepped on every cycle and compared with an "
       "invariant bound, or end-of-file I/O loop), that the per-molecule flag returned to the caller is exactly the result of the "
       "convergence test in every driver and through every layer up to Electronic_Structure.notconverged, that the test contains "
       "all four criteria against eps times a bounded module constant combined by `|`, that eps reaches it unchanged, and that "
-      "MAX_ITER caps every driver.",
-      "Does not decide that a flagged-converged density is idempotent / commuting / trace-correct to O(eps), nor termination of "
+      "MAX_ITER caps every driver. R8: nothing computed once from the start density (its trace, its diagonal) enters the iteration except the iterate and loop-carried state, so the "
+      "fixed point does not depend on the initial density. R9: every diagonalisation arm of make_Pnew_factory (forward / unrolled, restricted / unrestricted) returns, for padded, "
+      "homogeneous, equal-size-different-layout and single batches, exactly 2 x the projector on the lowest nocc eigenvectors of each molecule's own Fock block (hence symmetric, "
+      "trace 2 nocc, idempotent, commuting with F, reproduced on re-diagonalisation, nothing on padding orbitals) -- exact rational arithmetic on the interpreted source.",
+      "Does not decide the SP2 purification arm by value (exact squaring of rational matrices is too slow; it is read by structure), the convergence of the iteration itself, nor termination of "
       "library calls. Trusted: sa.loops counter rule, CFG builder.",
       "DESIGN.md section 4, C03")
 
@@ -151,12 +159,13 @@ claim("C01",
 
 claim("C04",
       "CFG event words over the SCF drivers (sibling agreement), argument-list agreement of all Fock builds, sympy reduction of the unrestricted "
-      "one-centre terms to the restricted formulas, attribute-universe check on Molecule reads",
+      "one-centre terms to the restricted formulas, attribute-universe check on Molecule reads, loop-invariant taint from the start density (R7), density builders by value (R8, sa/densitymodel.py, [EA+])",
       "Decides the structural reasons why solver paths agree: every driver iterates density-builder -> Fock -> energy -> the same "
       "convergence test with identical Fock arguments and builders obtained from one factory; unrolled and in-place arms compute "
       "the same update; the unrestricted halving is present in every driver and in the adjoint; the unrestricted one-centre and "
       "exchange terms reduce algebraically to the restricted NDDO formulas for a closed shell; every attribute read on a Molecule "
-      "exists (a typo kills exactly one configuration).",
+      "exists (a typo kills exactly one configuration). R7: the iterated map keeps no memory of the start density (restart independence). R8: all diagonalisation arms of the "
+      "builder factory return the same aufbau projector of each molecule's own Fock block, by value.",
       "This is the thinnest claim in the set: numerical agreement between solver configurations and monotone approach to the "
       "limit are NOT decided; they follow from C03's convergence clauses only for a unique fixed point. Trusted: sympy, CFG.",
       "DESIGN.md section 4, C04")
@@ -204,8 +213,10 @@ claim("C02",
       "packed molecular-frame two-electron integrals are the tensor transform of the local-frame integrals for every orthogonal frame (the local "
       "tensor comes from the point-charge oracle of C06, so its axial symmetry is derived, not assumed), that the quaternion frame is orthogonal "
       "with its first row on the bond vector on both charts, that the Euler-angle frames of the overlap routines are unit vectors on both charts, "
-      "that the pair selection is the rotation-invariant sphere, and that the one-centre Fock terms are isotropic in the p shell.",
-      "Does not decide the Slater-Koster overlap rotation formulas themselves, the d-orbital rotation matrices (PM6) or anything numerical. "
+      "that the pair selection is the rotation-invariant sphere, and that the one-centre Fock terms are isotropic in the p shell. R7: the p and d blocks of the spd rotation table "
+      "(GenerateRotationMatrix, interpreted on twelve exact unit vectors: generic in several octants, planar, axial) are orthogonal matrices -- a necessary condition of invariance that a "
+      "mistyped / halved / sign-flipped d entry breaks off the coordinate planes.",
+      "Does not decide the Slater-Koster overlap rotation formulas themselves, that the d block is the *right* orthogonal representation (only that it is orthogonal), or anything numerical. "
       "Trusted: dependence lattice, sympy, 40-digit evaluation at exact rational rotations.",
       "DESIGN.md section 4, C02")
 
@@ -255,13 +266,15 @@ claim("C16",
 
 claim("C05",
       "representative-row rule decided by guard extraction + interprocedural requirement propagation over the resolved call graph; spin-flatten expansion lint; "
-      "masked-occupation def-use rule; Parser.forward interpreted on concrete padded batches (sa/npsym.py)",
+      "masked-occupation def-use rule; Parser.forward interpreted on concrete padded batches (sa/npsym.py); symbol-occurrence non-interference on interpreted outputs (dipole) and "
+      "density builders by value on padded / mixed-layout batches (R6, [EA+])",
       "Decides four structural necessary conditions of batch transparency for every batch composition at once: no per-molecule size or "
       "occupation is taken from row 0 for the whole batch unless a uniformity fact about that same quantity holds there (locally or on "
       "every call chain from the entry points; same species does not discharge nocc), per-molecule vectors follow the (m0a, m0b, m1a, ...) "
       "order of spin-flattened matrices, fractional occupations never leak onto padding orbitals, and the flattened block indices "
       "(maskd, mask, mask_l, atom_molid, pair_molid, idxi/idxj) and the aligned per-pair records (atomic numbers, distance, unit vector) equal their definitions on ~40 interpreted "
-      "padded batches (1-3 molecules, every real-atom count, finite and infinite cutoff).",
+      "padded batches (1-3 molecules, every real-atom count, finite and infinite cutoff). R6: the interpreted dipole of each molecule of a padded symbolic batch contains no "
+      "padding-slot coordinate and no batch-mate symbol (non-interference read off the polynomial), and the density builders give each molecule the projector of its own block.",
       "Does not decide numerical equality of alone-vs-batched results, batch-coupled control flow inside converged tolerances (DIIS resets, "
       "shared Newton loops), or same-element atom permutation covariance. Two chains (nonadiabatic drivers, XL-ESMD) are discharged by "
       "protocol facts confirmed at run time and inventoried in the rule. Trusted: name-based recognition of per-molecule quantities, "
